@@ -318,7 +318,9 @@ _ADDED = {
            "without the optional week day; 2-3 threads round-trip date-times of their own under the controlled scheduler "
            "(DateTimeVsTrace.tla) with a ThreadSanitizer data-race scan.",
     "C20": " Threads are also launched pinned to an existing / a non-existent cpu (the library retries unpinned) and named; "
-           "the detach state reported after launch must match the join strategy.",
+           "the detach state reported after launch must match the join strategy; aws_thread_call_once from several threads "
+           "(function exactly once per flag, no call returns before it completed; pthread_once is modelled by the scheduler), "
+           "thread ids, names and aws_thread_current_sleep against the virtual clock are part of the same specification.",
 }
 for _k, _t in _ADDED.items():
     CLAIMED[_k]["text"] += _t
